@@ -42,6 +42,9 @@ func Register(id string, run func(r *mon.Run)) {
 			}
 			runHammer(r, id, rounds, b)
 		}
+		if id == "C08" || id == "C09" || id == "C14" || id == "C20" {
+			runFaultThenUse(r, id, r.N(30, 1000)) // faults.go
+		}
 		if ops := coldConcOps[id]; ops != nil {
 			runConcurrentColdStart(r, id, r.N(30, 300), ops)
 		}
@@ -409,6 +412,45 @@ func specialPoints() []namedPt {
 		if p := oracle.LiftX(x, 0); p != nil {
 			out = append(out, namedPt{fmt.Sprintf("x=p-%d", d), p, nil})
 			cnt++
+		}
+	}
+	// coordinates (and curve-equation sides) whose STORED, Montgomery-domain form c is tiny:
+	// a product whose stored result is below 2^256 - p is the one case in which the
+	// pre-subtraction value of a Montgomery multiplication lands in [p, 2^256)
+	// (c + p still fits in 256 bits), so square-root checks and on-curve tests on these
+	// points compare such products.  x = c/R; y = c/R; x^3 + 7 = c/R.
+	rinv := oracle.RinvP
+	cntX, cntY, cntR := 0, 0, 0
+	for c := int64(1); c < 3000 && (cntX < 3 || cntY < 3 || cntR < 4); c++ {
+		v := oracle.MulM(big.NewInt(c), rinv, bigP)
+		if cntX < 3 {
+			if p := oracle.LiftX(v, uint(c&1)); p != nil {
+				out = append(out, namedPt{fmt.Sprintf("x=%d/R", c), p, nil})
+				cntX++
+			}
+		}
+		if cntY < 3 {
+			cc := oracle.SubM(oracle.MulM(v, v, bigP), big.NewInt(7), bigP)
+			if cc.Sign() != 0 && new(big.Int).Exp(cc, pm1o3, bigP).Cmp(big.NewInt(1)) == 0 {
+				if x := cubeRootP(cc); x != nil {
+					if p := (&oracle.Pt{X: x, Y: v}); oracle.OnCurve(p) {
+						out = append(out, namedPt{fmt.Sprintf("y=%d/R", c), p, nil})
+						cntY++
+					}
+				}
+			}
+		}
+		if cntR < 4 {
+			// x^3 + 7 = v: on the curve iff v is a square
+			cc := oracle.SubM(v, big.NewInt(7), bigP)
+			if oracle.IsSquareP(v) && cc.Sign() != 0 && new(big.Int).Exp(cc, pm1o3, bigP).Cmp(big.NewInt(1)) == 0 {
+				if x := cubeRootP(cc); x != nil {
+					if p := oracle.LiftX(x, uint(c&1)); p != nil {
+						out = append(out, namedPt{fmt.Sprintf("x^3+7=%d/R", c), p, nil})
+						cntR++
+					}
+				}
+			}
 		}
 	}
 	specialCache = out
